@@ -225,6 +225,52 @@ def argument_texts(ctx, case):
             ctx.check('every piece decodes to some argument (Unknown at worst)', a is not None)
 
 
+HOSTILE_LINES = [
+    '[99999999999999999999999999.000]  -> wl_display@1.sync(new id wl_callback@3)',
+    '[1000.100]  -> wl_display@1.get_registry(new id wl_registry@2)',
+    '[0.000] wl_display@1.delete_id(3)',
+    '[1000.200] wl_a@99999999999999999999999.b(99999999999999999999999999999, -99999999999999999999, 1e5, 0.1.2)',
+    '[1000.300] wl_a@7.b("unterminated, nil, [)',
+    '[1000.300]  -> wl_a@7.b(new id [unknown]@0, new id wl_a@1, wl_a@0, fd -1, array[999999999999])',
+    '[1000.100]  -> wl_display@1.get_registry(new id wl_registry@2)',
+    '[     0.001] {Default Queue} <ZZZ> wl_a#7.b()',
+    '[1000.400] wl_registry@2.bind(1, 2, 3)',
+    '[1000.400]  -> xdg_toplevel@9.set_title()',
+]
+
+
+def hostile_lines(ctx, case):
+    """sequences of well-matched but hostile message lines (enormous time stamps and ids, ill-typed special messages, duplicates) through the real
+    into_sink + manager + controller: consumed to the end, every opened connection closed, commands still answer"""
+    import io, logging
+    logging.disable(logging.CRITICAL)
+    from backends.libwayland_debug_output import parse
+    from core import wl, matcher, util
+    from core.connection_manager import ConnectionManager
+    from core.output import Output
+    from frontends.tui.controller import Controller
+    from lib.stubs import RecStream
+    n = case
+    util.color_output = False
+    wl.Message.base_time = None
+    lines = [ctx.choose(HOSTILE_LINES, 'line%d' % k) for k in range(n)]
+    out, err = RecStream(), RecStream()
+    output = Output(False, True, out, err)
+    mgr = ConnectionManager()
+    c = Controller(output, mgr, matcher.always, matcher.never)
+    f = io.StringIO(''.join(l + chr(10) for l in lines))
+    parse.into_sink(f, output, mgr)
+    ctx.check('the log is consumed to the end', f.read() == '')
+    ctx.check('every connection that was opened is reported closed', all(not x.is_open() for x in mgr.connections()) and
+              len([x for x in out.items if x.startswith('Closed ')]) == len([x for x in out.items if x.startswith('New ')]))
+    # (a line that trips an internal assertion - object id 0, wl_registry.bind with three arguments - is reported with a traceback and stops the
+    #  DECODING of later lines; the log is still consumed and the connections closed, which is all this property asks for)
+    for cmd in (('connection', 'list', 'connection A', 'list ~ 2') if mgr.connections() else ('list', 'connection A')):
+        n0 = len(out.items) + len(err.items)
+        c.process_command(cmd)
+        ctx.check('afterwards `%s` answers' % cmd, len(out.items) + len(err.items) > n0)
+
+
 def short_texts(ctx, case):
     """all strings of <= n symbols: matcher.parse accepts or raises RuntimeError; every command built from them answers"""
     import logging
@@ -257,7 +303,9 @@ def short_texts(ctx, case):
         ctx.check('and evaluates', s.matches(msg) in (True, False) and m.matches(msg) in (True, False))
     if not getattr(short_texts, '_w', None):
         short_texts._w = ctl.make_world(None, 1, show_stub=False)
-        ctl.add_message(short_texts._w, 0)
+        # a burst: several messages carrying the same time stamp, then one later
+        ctl.add_message(short_texts._w, 0, t=2.5)
+        ctl.add_message(short_texts._w, 0, t=2.5)
     w = short_texts._w
     for cmd in ('', 'list ', 'filter ', 'breakpoint ', 'matcher ', 'connection ', 'help ', 'l', 'zz ', 'wl ', 'wl'):
         n0, e0 = len(w.out.items), len(w.err.items)
@@ -281,6 +329,8 @@ def obligations(tier):
            stubs=['parse.message and the sink replaced by failing stubs']),
         Ob('argument-texts', 'symx', 'argument_list_strs (and end_of_str) on ARBITRARY argument texts with symbolic characters: terminates, loses nothing', FUNCS[:1] + ['backends.libwayland_debug_output.parse:argument_list_strs', 'backends.libwayland_debug_output.parse:end_of_str'],
            'every text of <= %d characters, each any of 32..126' % (8 if tier == 'quick' else 11), argument_texts, cases=list(range(0, 9 if tier == 'quick' else 12))),
+        Ob('hostile-lines', 'symx', 'sequences of hostile but well-matched message lines (enormous numbers, ill-typed special messages, duplicates) through the real line loop, manager and controller', FUNCS[:3],
+           'all sequences of <= %d lines from a pool of %d' % (3 if tier == 'quick' else 4, len(HOSTILE_LINES)), hostile_lines, cases=[1, 2, 3] if tier == 'quick' else [1, 2, 3, 4]),
         Ob('literal-inclusion', 'smt', 'regex groups handed to int()/float() are inside the builtins\' languages (any length)', FUNCS[3:5], 'strings of any length', literal_inclusion, cases=[None], replay=replay_literal),
         Ob('hostile-evaluation', 'symx', 'matchers of the C05 family evaluate and print on hostile argument values', FUNCS[7:], 'every %d-th of %d expressions x 15 hostile argument kinds x 3 targets' % (step, n_expr),
            hostile_evaluation, cases=list(range(0, n_expr, step))),
